@@ -571,6 +571,14 @@ func c03Scenario(name string) func() explore.SchedOutcome {
 				world.Settle(10 * time.Second)
 			}
 			base = ""
+		case "SC8": // an administrator makes aliases that point at themselves (the named file does not exist, no new path is given)
+			h, _ := wd.Connect("10.0.0.66:6666", "admin", "secret", "hh")
+			hostiles = append(hostiles, h.Conn)
+			h.Req(ref.TMakeFileAlias, ref.FS(ref.FFileName, "loop"))
+			h.Req(ref.TMakeFileAlias, ref.FS(ref.FFileName, "loop"), ref.F(ref.FFilePath, ref.PathBytes("Uploads")), ref.F(ref.FFileNewPath, ref.PathBytes("Uploads")))
+			h.Req(ref.TMakeFileAlias, ref.FS(ref.FFileName, "dir"), ref.F(ref.FFileNewPath, ref.PathBytes("dir"))) // dir/dir -> dir
+			world.Settle(5 * time.Second)
+			base = ""
 		case "SC5": // a client that disconnects while a broadcast to it is in flight
 			g, _ := wd.Connect("10.0.0.9:1009", "admin", "secret", "adm")
 			base = c03Baseline(wd, sentinel)
@@ -621,7 +629,7 @@ func c03Scenario(name string) func() explore.SchedOutcome {
 	}
 }
 
-var c03Scenarios = []string{"SC1", "SC2", "SC3", "SC4", "SC5", "SC6", "SC6s", "SC7"}
+var c03Scenarios = []string{"SC1", "SC2", "SC3", "SC4", "SC5", "SC6", "SC6s", "SC7", "SC8"}
 
 // c03Flood is the number of requests the deaf client of SC6 sends (each leaves one reply pending for it).
 var c03Flood = 300
@@ -677,7 +685,7 @@ func runC03(w *explore.Worker) {
 		c03Current = "" // the watchdog guards single mutation cases; schedule exploration is bounded by the step horizon
 		b := bound
 		switch sc {
-		case "SC7":
+		case "SC7", "SC8":
 			b = 0 // a sequence, not a race
 		case "SC6":
 			b = 0 // 300 pending replies: thousands of steps per execution, default schedule and hold-backs only
